@@ -125,8 +125,12 @@ def explain(case, f):
         ids.append("C08-desc-selector-tie")
     if q["kind"] == "plain" and ft["has_tie"] and f.get("tie_only"):
         ids.append("C08-tie-order")
-    if ft["layout"] == "ooo" and iv and (0 < inner < 1024 or desc):
-        ids.append("C08-ooo-time-agg")
+    small = 0 < inner < 1024
+    if iv and ((ft["layout"] == "ooo" and (small or desc)) or (desc and small)):
+        ids.append("C08-time-window-agg-store")
+    if (q["kind"] == "agg" and n_cols(q) >= 2 and any(a["fn"] in ("first", "last") for a in q["aggs"])
+            and len({a["f"] for a in q["aggs"]}) >= 2 and ft.get("multi_series_group") and cf.get("phase") == "mem"):
+        ids.append("C08-multicolumn-first-last-across-series")
     return ids
 
 
@@ -142,7 +146,10 @@ FINDING_TEXT = {
     "C08-desc-selector-tie": "single min()/max() without time(): when the extreme value occurs at several timestamps a descending "
                              "query reports the latest of them, the ascending query the earliest",
     "C08-tie-order": "plain selection: order of rows with equal timestamps from different series changes with inner_chunk_size / limit",
-    "C08-ooo-time-agg": "GROUP BY time() aggregates over series with out-of-order (overlapping) files are wrong for small inner_chunk_size and for ORDER BY time DESC",
+    "C08-time-window-agg-store": "GROUP BY time() aggregates over series stored in several sources are wrong for small inner_chunk_size when the "
+                                 "query is descending or the files overlap (out-of-order writes), and for descending + overlapping files at any size",
+    "C08-multicolumn-first-last-across-series": "first()/last() next to an aggregate of another field, group fed by several series, data partly "
+                                                "in the memtable: the value of the wrong series is returned (right after the flush)",
 }
 
 
